@@ -387,6 +387,34 @@ def run_null(case, out):
                 out["viol"].append({"sig": "a body ran under the null runner",
                                     "msg": "produce(%r) on a store whose files %s were removed / emptied" % (
                                         cid, [os.path.relpath(x, sc.path("nr2"))[-60:] for x in files[:4]])})
+        # a function of a cluster with the ordinary runner calls, in its body, a function of a cluster whose runner is the
+        # null runner: the nested call is refused like any other, its body does not run, nothing appears in its store
+        import twosigma.memento as m
+
+        nested_store = env.fs_backend(sc.path("nested_c"))
+        repo = m.ConfigurationRepository(name="nested", clusters={
+            "c": m.FunctionCluster(name="c", storage=nested_store, runner=NullRunnerBackend())})
+        e4 = m.Environment(name="vf", base_dir=sc.path("e4"), repos=[repo])
+        e4.default_cluster = m.FunctionCluster(name="default", storage=env.fs_backend(sc.path("nested_default")))
+        m.Environment.set(e4)
+        snap = fsobs.snapshot(sc.path("nested_c")) if os.path.isdir(sc.path("nested_c")) else {}
+        for cid in [rng.choice("abz") for _ in range(3)]:
+            mark = REC.mark()
+            try:
+                got = ffuncs.calls_c(cid)
+            except Exception as e:
+                got = ["raise", type(e).__name__]
+            ran = [ev[0] for ev in REC.since(mark)]
+            out["obs"]["null_runner_calls"] += 1
+            out["obs"]["nested_calls_into_a_null_runner_cluster"] += 1
+            if "cproduce" in ran:
+                out["viol"].append({"sig": "a body ran under the null runner",
+                                    "msg": "cproduce(%r), a function of a null-runner cluster called from the body of a function of "
+                                           "another cluster: bodies run %s, outer result %s" % (cid, ran, domain.describe(got))})
+        after = fsobs.snapshot(sc.path("nested_c")) if os.path.isdir(sc.path("nested_c")) else {}
+        if after != snap:
+            out["viol"].append({"sig": "a body ran under the null runner",
+                                "msg": "the store of the null-runner cluster changed: %s" % sorted(set(after) - set(snap))[:4]})
         out["nontrivial"].append("null:%d:%d" % (case["seed"], case["idx"]))
         out["sample"] = {"kind": "null", "calls": seq}
 
